@@ -149,6 +149,11 @@ def data_for(name, rng, n=9, d=3):
     return X
 
 
+def TWIN(v):
+    """an equal value of another type: 1 for True, 3.0 for 3 (its own verdict is not judged, see the callers)"""
+    return int(v) if isinstance(v, (bool, np.bool_)) else float(v)
+
+
 def pname(v):
     if v is BAD_TYPE:
         return "<object>"
@@ -266,20 +271,33 @@ def run_case(case, ctx, st):
     elif case["kind"] == "geminis":
         import gemclus.gemini as gg
         table = {
-            "KLGEMINI": {"ovo": ([True, False], ["yes", None, 2]), "epsilon": ([1e-12, 1e-3, 0.5, 0.999], [0, 0.0, 1, 1.0, -1e-3, 1.5, "small", None])},
-            "TVGEMINI": {"ovo": ([True, False], ["yes", None]), "epsilon": ([1e-12, 0.5], [0, 1, -1e-3, "small", None])},
-            "HellingerGEMINI": {"ovo": ([True, False], ["yes", None]), "epsilon": ([1e-12, 0.5], [0, 1, 2.0, None])},
-            "ChiSquareGEMINI": {"ovo": ([True, False], ["yes", None]), "epsilon": ([1e-12, 0.5], [0, 1, 2.0, None])},
+            "KLGEMINI": {"ovo": ([True, False], ["yes", None, 2, 1, 0]), "epsilon": ([1e-12, 1e-3, 0.5, 0.999], [0, 0.0, 1, 1.0, -1e-3, 1.5, "small", None])},
+            "TVGEMINI": {"ovo": ([True, False], ["yes", None, 1, 0]), "epsilon": ([1e-12, 0.5], [0, 1, -1e-3, "small", None])},
+            "HellingerGEMINI": {"ovo": ([True, False], ["yes", None, 1, 0]), "epsilon": ([1e-12, 0.5], [0, 1, 2.0, None])},
+            "ChiSquareGEMINI": {"ovo": ([True, False], ["yes", None, 1, 0]), "epsilon": ([1e-12, 0.5], [0, 1, 2.0, None])},
             "MI": {"epsilon": ([1e-12, 0.5], [0, 1, -0.1, "x", None])},
-            "MMDGEMINI": {"ovo": ([True, False], ["yes", None]), "kernel": (KERN_OK + ["chi2", "additive_chi2", _cb], ["gaussian", 3, None]),
+            "MMDGEMINI": {"ovo": ([True, False], ["yes", None, 1, 0]), "kernel": (KERN_OK + ["chi2", "additive_chi2", _cb], ["gaussian", 3, None]),
                           "kernel_params": ([None, {}, {"gamma": 0.5}], ["gamma", 3] + FALSY_NON_DICT), "epsilon": ([1e-12, 0.5], [0, 1, None])},
-            "WassersteinGEMINI": {"ovo": ([True, False], ["yes", None]), "metric": (METRIC_OK, ["minkowski3", "haversine", 5, None]),
+            "WassersteinGEMINI": {"ovo": ([True, False], ["yes", None, 1, 0]), "metric": (METRIC_OK, ["minkowski3", "haversine", 5, None]),
                                   "metric_params": ([None, {}], ["p", 3] + FALSY_NON_DICT), "epsilon": ([1e-12, 0.5], [0, 1, None])},
         }
         for cname, spec in table.items():
             cls = getattr(gg, cname)
             for par, (good, bad) in spec.items():
-                for v, expect in [(v, "accept") for v in good] + [(v, "reject") for v in bad]:
+                # in-domain values are probed again after the out-of-domain ones, each right after an equal value of another
+                # type (True after 1, 3 after 3.0): the verdict on a value depends on the value, not on what was asked before
+                again = []
+                for v in good:
+                    if isinstance(v, (bool, int, np.integer)):
+                        again += [(TWIN(v), "twin"), (v, "accept")]
+                for v, expect in [(v, "accept") for v in good] + [(v, "reject") for v in bad] + again:
+                    if expect == "twin":
+                        try:
+                            cls(**{par: v})
+                        except Exception:
+                            pass
+                        ctx.count("twin_probes")
+                        continue
                     ctx.case = dict(case, cls=cname, param=par, probe=pname(v))
                     ctx.count("probes")
                     ctx.distinct(cname, par, pname(v))
@@ -321,7 +339,18 @@ def run_case(case, ctx, st):
         ]
         for fname, fn, spec in calls:
             for par, (good, bad) in spec.items():
-                for v, expect in [(v, "accept") for v in good] + [(v, "reject") for v in bad]:
+                again = []
+                for v in good:
+                    if isinstance(v, (bool, int, np.integer)):
+                        again += [(TWIN(v), "twin"), (v, "accept")]
+                for v, expect in [(v, "accept") for v in good] + [(v, "reject") for v in bad] + again:
+                    if expect == "twin":
+                        try:
+                            fn(**{par: v})
+                        except Exception:
+                            pass
+                        ctx.count("twin_probes")
+                        continue
                     ctx.case = dict(case, function=fname, param=par, probe=pname(v))
                     ctx.count("probes")
                     ctx.distinct(fname, par, pname(v))
